@@ -57,14 +57,36 @@ def c04_r1(ctx):
         return False
     good_edges = f.cmp_edges(lambda d: d["op"] == "Eq" and is_code_test(d), True) | \
         f.cmp_edges(lambda d: d["op"] == "Ne" and is_code_test(d), False)
-    oks = [(bb, idx, rv) for (bb, idx, rv, pl) in f.constructs("std::result::Result", "Ok")]
+    # Where an element's output is *taken up* (wrapped into Ok, or into an accumulator such as
+    # `Some(output)` carried to the end of a fold): each such site needs the status test.  An
+    # `Ok(x)` of a CommandLineOutput elsewhere may only hand on what was taken up.
+    taken = []
+    for b in f.blocks:
+        if b["cleanup"] or b["i"] not in f.live:
+            continue
+        for i, st in enumerate(b["stmts"]):
+            if st["k"] == "assign" and st["rv"]["k"] == "aggregate" and st["rv"]["kind"]["k"] == "adt":
+                for op in st["rv"]["ops"]:
+                    if op["k"] in ("copy", "move") and f.origins_of_operand(op) == elem_ok and _reads_element_directly(f, op, lp):
+                        taken.append((b["i"], i, st["rv"]))
+    oks = [(bb, idx, rv) for (bb, idx, rv, pl) in f.constructs("std::result::Result", "Ok")
+           if rv["ops"] and not pl["proj"] and f.local_ty(pl["local"])["s"].startswith("std::result::Result<system::CommandLineOutput,")]
     ctx.need(oks, "an Ok(output) construction")
+    for (bb, idx, rv) in taken:
+        ctx.inst("output taken up", f.where(bb, idx))
+        if not f.dominated_by_edges(bb, good_edges):
+            ctx.viol((f.id, "ok-without-status-check"), "a command's output is accepted as success without the test `code == Some(0)`", f.where(bb, idx))
+        else:
+            ctx.ok()
     for (bb, idx, rv) in oks:
         ctx.inst("Ok(output)", f.where(bb, idx))
-        if f.origins_of_operand(rv["ops"][0]) != elem_ok:
+        org = f.origins_of_operand(rv["ops"][0])
+        if not org or not org <= elem_ok:
             ctx.viol((f.id, "ok-foreign-output"), "Ok is built from something other than this iteration's output", f.where(bb, idx))
-        elif not f.dominated_by_edges(bb, good_edges):
-            ctx.viol((f.id, "ok-without-status-check"), "a command's output is accepted as success without the test `code == Some(0)`", f.where(bb, idx))
+        elif any(t[0] == bb and t[1] == idx for t in taken):
+            ctx.ok()
+        elif not taken:
+            raise AnalysisError("idiom not recognised: %s returns an output that no statement of the loop takes from the element (the status test cannot be placed)" % f.id)
         else:
             ctx.ok()
     # an Err element returns Err at once
@@ -91,6 +113,33 @@ def c04_r1(ctx):
                     org = f._rv_origins(payload, (), bb, idx, frozenset())
                     if not all(x[0][0] == "agg" and x[0][4].endswith("Result::Err") for x in org):
                         ctx.viol((f.id, "initial-not-err"), "with no command line the result is not an error", f.where(bb, idx))
+
+
+def _reads_element_directly(f, op, lp):
+    """The operand is the loop element's own payload (through plain moves), not a value that
+    went through another container first."""
+    seen = set()
+    cur = op
+    while cur["k"] in ("copy", "move"):
+        pl = cur["place"]
+        if pl["proj"]:
+            base = f.origins_of_place({"local": pl["local"], "proj": []})
+            return base == lp["elem"] or base == {e + (("variant", "Ok"), ("field", 0)) for e in lp["elem"]}
+        if pl["local"] in seen:
+            return False
+        seen.add(pl["local"])
+        defs = [d for d in f.defs.get(pl["local"], ()) if not d[3]["proj"]]
+        if len(defs) != 1:
+            return False
+        kind, bb, idx, place, payload = defs[0]
+        if kind != "assign" or payload["k"] != "use":
+            if kind == "call":
+                # unwrap-like pass-through of the element
+                return f.origins_of_operand(cur) == {e + (("variant", "Ok"), ("field", 0)) for e in lp["elem"]} and \
+                    all(f.origins_of_operand(a) == lp["elem"] for a in payload.args[:1])
+            return False
+        cur = payload["op"]
+    return False
 
 
 def _promoted_through(f, op):
